@@ -13,6 +13,9 @@ use super::ghost;
 #[derive(Clone, Copy)] #[repr(C)] pub struct E160(pub [u64; 20]);
 #[derive(Clone, Copy)] #[repr(C, align(32))] pub struct A32(pub [u8; 32]);
 #[derive(Clone, Copy)] #[repr(C, align(64))] pub struct A64(pub [u8; 64]);
+/// beyond what the inline backends support (their buffer is 64-aligned): must be refused, also when zero-sized
+#[derive(Clone, Copy)] #[repr(C, align(128))] pub struct A128(pub [u8; 128]);
+#[derive(Clone, Copy)] #[repr(align(128))] pub struct ZA128;
 
 /// Element types with drop glue whose destructor *is* the destructor contract (recorder).
 /// They never read `self`, so they can live in the never-dereferenced ghost arena.
